@@ -158,7 +158,13 @@ func (pe *PolicyEngine) getPeer(p string) (k8s.Peer, error) {
 			}
 			nsObj, ok := pe.namespacesMap[namespaceStr]
 			if !ok {
-				return nil, errors.New(netpolerrors.NotFoundNamespace)
+				// as in the connectivity analysis: a namespace with no Namespace resource has only its default (name) label
+				if err := pe.resolveSingleMissingNamespace(namespaceStr); err != nil {
+					return nil, err
+				}
+				if nsObj, ok = pe.namespacesMap[namespaceStr]; !ok {
+					return nil, errors.New(netpolerrors.NotFoundNamespace)
+				}
 			}
 			res.NamespaceObject = nsObj
 			return res, nil
